@@ -55,6 +55,8 @@ CONSTANTS Threads,     \* thread ids
           TT, MTC,     \* TREEIFY_THRESHOLD, MIN_TREEIFY_CAPACITY: put on a list bin of >= TT nodes calls treeify_bin:
                        \* try_presize(2n) in a table shorter than MTC, conversion of the bin into a tree bin otherwise
           UT,          \* UNTREEIFY_THRESHOLD: a half of a split tree bin with <= UT nodes becomes a list bin
+          CLRWAIT,     \* TRUE = clear() continues in the next table only once it has replaced the old one (fix baee14a);
+                       \* FALSE = the pinned code: it restarts there at once (finding F8: violates ClearSafe)
           XSKIP,       \* FALSE = the code; TRUE = transfer skips a bin whose head changed while it waited for its lock
           SMIN, SMAX   \* a removal from a tree bin answers "too small" (the bin is turned back into a list) always when
                        \* <= SMIN nodes remain, never when > SMAX remain, and otherwise depending on the tree's shape
@@ -470,7 +472,7 @@ HLoadNt(t) ==     \* table.next_table
   /\ UnchHeap /\ UnchTab /\ UnchCtl /\ UnchHist
 HExit(t) ==
   IF CurOp(t).op = "clear"
-  THEN SetLoc(t, [loc[t] EXCEPT !.tb = loc[t].nt, !.ix = 0]) /\ Goto(t, "ClrLoadBin")   \* idx = 0 in the new table
+  THEN SetLoc(t, [loc[t] EXCEPT !.tb = loc[t].nt, !.ix = 0]) /\ Goto(t, IF CLRWAIT THEN "ClrWait" ELSE "ClrLoadBin")   \* idx = 0 in the new table
   ELSE IF CurOp(t).op \in RetainOps
   THEN SetLoc(t, [loc[t] EXCEPT !.tb = loc[t].nt]) /\ Goto(t, "RtLoadBin")             \* replace_node's loop
   ELSE SetLoc(t, [loc[t] EXCEPT !.tb = loc[t].nt]) /\ Goto(t, "LoadBin")
@@ -752,6 +754,10 @@ ClrLoadBin(t) ==
              ELSE IF b = FWD THEN SetLoc(t, [l EXCEPT !.b = b]) /\ Goto(t, "HLoadNt")
              ELSE SetLoc(t, [l EXCEPT !.b = b]) /\ Goto(t, "ClrLock")
   /\ UnchHeap /\ UnchTab /\ UnchCtl /\ UNCHANGED before /\ UnchRz
+ClrWait(t) ==     \* while self.table.load() == table { yield }   (loc.xt = the table clear() was working on)
+  /\ pc[t] = "ClrWait"
+  /\ IF table # loc[t].xt THEN Goto(t, "ClrLoadBin") ELSE UNCHANGED pc
+  /\ UNCHANGED loc /\ UnchHeap /\ UnchTab /\ UnchCtl /\ UnchHist
 ClrLock(t) ==
   /\ pc[t] = "ClrLock" /\ lockOwner[loc[t].b] = 0
   /\ lockOwner' = [lockOwner EXCEPT ![loc[t].b] = t] /\ Goto(t, "ClrReval")
@@ -879,7 +885,7 @@ RtReval(t) ==     \* still the head? find the key; remove it if (retain) its val
                /\ UNCHANGED <<res, before, doneOps, idx, mig, pubs, fins, joins>>
 
 Step(t) ==
-   \/ Call(t) \/ LoadTable(t) \/ ClrLoadTable(t) \/ ClrLoadBin(t) \/ ClrLock(t) \/ ClrReval(t) \/ ItNew(t) \/ ItNext(t) \/ ItLoop(t) \/ ItDescend(t) \/ ItYield(t)
+   \/ Call(t) \/ LoadTable(t) \/ ClrLoadTable(t) \/ ClrLoadBin(t) \/ ClrWait(t) \/ ClrLock(t) \/ ClrReval(t) \/ ItNew(t) \/ ItNext(t) \/ ItLoop(t) \/ ItDescend(t) \/ ItYield(t)
    \/ InitLoadTable(t) \/ InitLoadSc(t) \/ InitSpin(t) \/ InitCasSc(t) \/ InitRecheck(t) \/ InitStoreTable(t) \/ InitStoreSc(t)
    \/ LoadBin(t) \/ GetFwd(t) \/ PutCas(t) \/ TiFast(t) \/ Walk(t) \/ LoadVal(t) \/ Lock(t) \/ Reval(t)
    \/ AcFetch(t) \/ AcLoadSc(t) \/ AcLoadTable(t) \/ AcLoadNt(t) \/ AcLoadTi(t) \/ AcCasJoin(t) \/ AcCasStart(t) \/ AcReload(t)
@@ -968,6 +974,21 @@ RetainOK ==
 GhostOK == AllDone =>
   \A k \in DOMAIN amap :
      Present(amap, k) <=> (table # 0 /\ k \in KeysOf(tabs[table].bins[HashOf[k] % TLen(table)]))
+
+\* C03 at the level of the table protocol: what clear() retires - the nodes of the bin it empties and their values - is
+\* no longer reachable from a live table (the current one, the next one) once the bin has been emptied
+RECURSIVE NodesOfH(_, _)
+NodesOfH(nd, p) == IF p = NULL \/ p = FWD THEN {} ELSE {p} \cup NodesOfH(nd, nd[p].next)
+ClearSafe ==
+  [][\A t \in Threads :
+       (pc[t] = "ClrReval" /\ tabs[loc[t].tb].bins[loc[t].ix] = loc[t].b /\ tabs'[loc[t].tb].bins[loc[t].ix] = NULL) =>
+          LET gone == NodesOfH(node, loc[t].b)
+              gonev == {node[q].val : q \in {x \in gone : ~node[x].tree}}
+              live == {table', nextTable'} \ {0}
+              reach == UNION {UNION {NodesOfH(node', tabs'[tb].bins[i]) : i \in 0..(tabs'[tb].len - 1)} : tb \in live}
+          IN /\ reach \cap gone = {}
+             /\ {node'[q].val : q \in {x \in reach : ~node'[x].tree}} \cap gonev = {}
+    ]_vars
 
 \* C14: the table never shrinks; it is replaced only by one of twice the length
 NeverShrinks == [][table' # table => (table = 0 \/ TLen(table') = 2 * TLen(table))]_vars
